@@ -740,6 +740,19 @@ func indexMismatch(b *types.Block) (mismatch, outOfRange bool, n int) {
 	return
 }
 
+// outOfUnixNano: some non-nil precommit's timestamp is not an int64 number of nanoseconds.
+func outOfUnixNano(b *types.Block) bool {
+	if b.LastCommit == nil {
+		return false
+	}
+	for _, pc := range b.LastCommit.Precommits {
+		if pc != nil && !timeNS(pc.Timestamp).IsInt64() {
+			return true
+		}
+	}
+	return false
+}
+
 // ---------------------------------------------------------------- exec
 
 func exec(t []string) (impl string, oracle string) {
@@ -808,6 +821,9 @@ func exec(t []string) (impl string, oracle string) {
 	if full == "ok" {
 		if len(bad) == 0 {
 			return impl, "ok"
+		}
+		if len(bad) == 1 && bad[0] == "time-median" && outOfUnixNano(b3) {
+			return impl, "VIOL:median-wrap accepted block whose time is not the power-weighted median of its commit (a precommit timestamp outside the int64 UnixNano range)"
 		}
 		if len(bad) == 1 && bad[0] == "time-median" && mismatch {
 			return impl, "VIOL:median-weight accepted block whose time is not the power-weighted median of its commit (a precommit's ValidatorIndex names another validator)"
@@ -885,6 +901,7 @@ func execApply(sp *stateSpec, st sm.State, fresh func() *types.Block) (impl stri
 	if len(bad) > 0 {
 		return impl, "VIOL:applied-invalid ApplyBlock applied a block although: " + strings.Join(bad, ",")
 	}
+	_ = sp
 	// the statement's link conditions on the new state
 	if ns.LastBlockHeight != b.Height || !ns.LastBlockTime.Equal(b.Time) || !ns.LastBlockID.Equals(bid) ||
 		valsTok(ns.LastValidators) != valsTok(st.Validators) {
